@@ -28,3 +28,51 @@ Example C16_nonvacuous :
   /\ escape true true [97; 32; 13; 10; 37; 200; 10]
      = [97; 43; 37;48;68; 37;48;65; 37;50;53; 37;67;56; 37;48;68; 37;48;65].
 Proof. split; vm_compute; reflexivity. Qed.
+
+(* unescaping never lengthens the string (the NUL-terminated text the C function sees) *)
+Theorem C16_unescape_shrinks : forall pts bc l,
+  (length (unescape pts bc l) <= length (until_nul l))%nat.
+Proof. exact unescape_shrinks. Qed.
+Print Assumptions C16_unescape_shrinks.
+
+(* unescaping is the tokenising specification: every well-formed %HH triplet (either hex case)
+   is decoded, a malformed '%' stands for itself, '+' becomes a space only on request, and the
+   requested line-break conversion is applied to encoded line breaks *)
+Theorem C16_unescape_is_spec : forall pts bc l,
+  unescape pts bc l =
+  unescape_spec pts
+    (match bc with BrToLf => ToLf | BrToCrlf => ToCrlf | BrToCr => ToCr | BrDontTouch => DontTouch end) l.
+Proof. exact unescape_is_spec. Qed.
+Print Assumptions C16_unescape_is_spec.
+
+(* the cursor-level loop run in place on a buffer  l ++ 0 :: rest  (l NUL-free) terminates within
+   its fuel, leaves the pure result followed by a terminator at the returned position, returns a
+   position not after the original terminator, keeps the buffer length, changes nothing after the
+   original terminator, and never writes at an index past the original terminator *)
+Theorem C16_unescape_inplace_refines : forall pts bc l rest,
+  Forall (fun c => c <> 0) l ->
+  exists buf' ret log,
+    unescape_inplace pts bc (l ++ 0 :: rest) = Some (buf', ret, log) /\
+    firstn ret buf' = unescape pts bc l /\
+    nth ret buf' 0 = 0 /\
+    (ret <= length l)%nat /\
+    length buf' = length (l ++ 0 :: rest) /\
+    skipn (S (length l)) buf' = rest /\
+    Forall (fun i => (i <= length l)%nat) log.
+Proof. exact unescape_inplace_refines. Qed.
+Print Assumptions C16_unescape_inplace_refines.
+
+(* the hypothesis of C16_unescape_inplace_refines is satisfiable, with a non-empty [rest]:
+   "a%41%0d%0A%4+%" followed by NUL and three more characters *)
+Example C16_inplace_nonvacuous :
+  let l := [97; 37;52;49; 37;48;100; 37;48;65; 37;52; 43; 37] in
+  let rest := [55; 0; 66] in
+  Forall (fun c => c <> 0) l
+  /\ unescape_inplace true BrToCrlf (l ++ 0 :: rest)
+     = Some ([97; 65; 13; 10; 37; 52; 32; 37; 0; 65; 37; 52; 43; 37; 0; 55; 0; 66], 8%nat,
+             [8; 7; 6; 5; 4; 3; 2; 1]%nat)
+  /\ unescape true BrToCrlf l = [97; 65; 13; 10; 37; 52; 32; 37].
+Proof.
+  cbv zeta. split; [|split; vm_compute; reflexivity].
+  repeat constructor; discriminate.
+Qed.
